@@ -309,7 +309,7 @@ func c08Run(w *W) {
 			var per []c08Site
 			bs := bodies1
 			for _, op := range ops {
-				for _, d := range c08Delims {
+				for _, d := range c08Delims[:4] { // (the delimiters with empty quotes: one-site programs only)
 					for _, b := range bs {
 						if !w.thorough() && len(b) == 1 && (b[0] == "EE" || b[0] == " E" || b[0] == "a\\b" || b[0] == "`c`" || b[0] == "$(c)E" || b[0] == "\\$E" || b[0] == "$1EF" || b[0] == "#x") {
 							continue
